@@ -79,6 +79,8 @@ type State struct {
 	Held    map[string]bool
 	Ghost   map[string]string
 	Named   map[string]string // path-local named values: loaded(status), cas_ok(status), ...
+	NamedV  map[string]SVal   // path-local named structured values: atlock(finalizers), ranged, it, phi names
+	InLoop  []int             // header block indexes of the loops whose body is being executed
 	Obls    []Obl
 	Frames  []*Frame
 	Written map[string]bool // heap keys written on this path
@@ -97,6 +99,8 @@ func (s *State) clone() *State {
 		Held:    make(map[string]bool, len(s.Held)),
 		Ghost:   make(map[string]string, len(s.Ghost)),
 		Named:   make(map[string]string, len(s.Named)),
+		NamedV:  make(map[string]SVal, len(s.NamedV)),
+		InLoop:  append([]int{}, s.InLoop...),
 		Obls:    append([]Obl{}, s.Obls...),
 		Written: make(map[string]bool, len(s.Written)),
 		Ctx:     s.Ctx,
@@ -117,6 +121,9 @@ func (s *State) clone() *State {
 	}
 	for k, v := range s.Named {
 		t.Named[k] = v
+	}
+	for k, v := range s.NamedV {
+		t.NamedV[k] = v
 	}
 	for k, v := range s.Written {
 		t.Written[k] = v
@@ -573,6 +580,7 @@ func (x *Exec) block(st *State, b *ssa.BasicBlock, pred *ssa.BasicBlock, k Cont)
 	}
 	fr := st.top()
 	fn := b.Parent()
+	x.leaveLoops(st, pred, b)
 	if ord, isHeader := x.loopOrdinals(fn)[b.Index]; isHeader {
 		backEdge := pred != nil && b.Dominates(pred)
 		var ls *LoopSpec
@@ -587,12 +595,14 @@ func (x *Exec) block(st *State, b *ssa.BasicBlock, pred *ssa.BasicBlock, k Cont)
 		if backEdge {
 			// inductive step: iteration events + invariant preserved; then stop this path
 			mark := fr.LoopMark[b.Index]
-			// phis take their back-edge values for the invariant check
-			x.assignPhis(st, b, pred)
+			// the iteration's events are matched with the loop variables of the iteration that just ran
 			if ls.IterEmits != nil && x.H.MatchIter != nil {
 				g := x.H.MatchIter(x, st, ls, st.Events[mark:])
 				x.obl(st, ls.Name+"/iteration", g, "events of one iteration", b.Instrs[0].Pos())
 			}
+			// phis take their back-edge values for the invariant check
+			x.assignPhis(st, b, pred)
+			x.exposeLoopVars(st, b)
 			for i, inv := range ls.Invariant {
 				g, err := x.H.EvalExpr(x, st, inv)
 				if err != nil {
@@ -606,6 +616,7 @@ func (x *Exec) block(st *State, b *ssa.BasicBlock, pred *ssa.BasicBlock, k Cont)
 		}
 		// entry: establish, havoc, assume
 		x.assignPhis(st, b, pred)
+		x.exposeLoopVars(st, b)
 		for i, inv := range ls.Invariant {
 			g, err := x.H.EvalExpr(x, st, inv)
 			if err != nil {
@@ -631,21 +642,130 @@ func (x *Exec) block(st *State, b *ssa.BasicBlock, pred *ssa.BasicBlock, k Cont)
 			old := st.Heap[key]
 			st.Heap[key] = x.freshLike(st, key+"@loop", old, old.GoT)
 		}
+		x.exposeLoopVars(st, b)
 		for _, inv := range ls.Invariant {
 			g, err := x.H.EvalExpr(x, st, inv)
 			if err == nil {
 				st.assume(g)
 			}
 		}
+		st.InLoop = append(st.InLoop, b.Index)
 		fr.LoopMark[b.Index] = len(st.Events)
 		// summary marker for events of completed iterations
-		st.Events = append(st.Events, Event{Name: "loop:" + ls.Name, Loop: ls.Name, Held: st.heldList()})
+		st.Events = append(st.Events, Event{Name: fmt.Sprintf("loop:L%d", ord), Loop: ls.Name, Held: st.heldList()})
 		fr.LoopMark[b.Index] = len(st.Events)
 		x.instrs(st, b, x.firstNonPhi(b), k)
 		return
 	}
 	x.assignPhis(st, b, pred)
 	x.instrs(st, b, x.firstNonPhi(b), k)
+}
+
+// naturalLoop returns the set of block indexes of the natural loop of header h.
+func naturalLoop(h *ssa.BasicBlock) map[int]bool {
+	in := map[int]bool{h.Index: true}
+	var stack []*ssa.BasicBlock
+	for _, p := range h.Preds {
+		if h.Dominates(p) && !in[p.Index] {
+			in[p.Index] = true
+			stack = append(stack, p)
+		}
+	}
+	for len(stack) > 0 {
+		n := stack[len(stack)-1]
+		stack = stack[:len(stack)-1]
+		for _, p := range n.Preds {
+			if !in[p.Index] {
+				in[p.Index] = true
+				stack = append(stack, p)
+			}
+		}
+	}
+	return in
+}
+
+// earlyExit raises the no-early-exit obligation when a function exit happens inside a loop body.
+func (x *Exec) earlyExit(st *State, b *ssa.BasicBlock, how string, pos token.Pos) {
+	if len(st.InLoop) == 0 || len(st.Frames) == 0 {
+		return
+	}
+	fn := b.Parent()
+	for _, h := range st.InLoop {
+		if h < len(fn.Blocks) && naturalLoop(fn.Blocks[h])[b.Index] {
+			ord := x.loopOrdinals(fn)[h]
+			x.obl(st, fmt.Sprintf("loop#%d/no-early-exit", ord), "false", "the loop body leaves the function by "+how+" before all iterations ran", pos)
+		}
+	}
+}
+
+// leaveLoops pops loops that control has left; leaving from a block other than the header is an early exit (break).
+func (x *Exec) leaveLoops(st *State, from, to *ssa.BasicBlock) {
+	if len(st.InLoop) == 0 || from == nil {
+		return
+	}
+	fn := to.Parent()
+	if from.Parent() != fn {
+		return
+	}
+	var keep []int
+	for _, h := range st.InLoop {
+		if h >= len(fn.Blocks) {
+			keep = append(keep, h)
+			continue
+		}
+		nl := naturalLoop(fn.Blocks[h])
+		if nl[from.Index] && !nl[to.Index] {
+			if from.Index != h {
+				ord := x.loopOrdinals(fn)[h]
+				x.obl(st, fmt.Sprintf("loop#%d/no-early-exit", ord), "false", "the loop is left by a break before all iterations ran", from.Instrs[len(from.Instrs)-1].Pos())
+			}
+			continue
+		}
+		keep = append(keep, h)
+	}
+	st.InLoop = keep
+}
+
+// exposeLoopVars publishes the loop's phi values under their source names, and for range-over-slice
+// loops the iteration index `it` (index of the current/next iteration) and the ranged slice `ranged`.
+func (x *Exec) exposeLoopVars(st *State, b *ssa.BasicBlock) {
+	fr := st.top()
+	for _, ins := range b.Instrs {
+		phi, ok := ins.(*ssa.Phi)
+		if !ok {
+			break
+		}
+		if phi.Comment != "" {
+			if v, ok := fr.Vals[phi]; ok {
+				st.NamedV[phi.Comment] = v
+			}
+		}
+		if phi.Comment == "rangeindex" {
+			if v, ok := fr.Vals[phi]; ok && v.K == KInt {
+				st.NamedV["it"] = mkInt("(+ " + v.T + " 1)")
+			}
+			// t = phi + 1 ; c = t < len(X)
+			for _, r := range *phi.Referrers() {
+				add, ok := r.(*ssa.BinOp)
+				if !ok || add.Op != token.ADD {
+					continue
+				}
+				for _, r2 := range *add.Referrers() {
+					cmp, ok := r2.(*ssa.BinOp)
+					if !ok || cmp.Op != token.LSS {
+						continue
+					}
+					if call, ok := cmp.Y.(*ssa.Call); ok {
+						if bi, ok := call.Call.Value.(*ssa.Builtin); ok && bi.Name() == "len" && len(call.Call.Args) == 1 {
+							if sv, ok := fr.Vals[call.Call.Args[0]]; ok {
+								st.NamedV["ranged"] = sv
+							}
+						}
+					}
+				}
+			}
+		}
+	}
 }
 
 func (x *Exec) firstNonPhi(b *ssa.BasicBlock) int {
@@ -786,6 +906,7 @@ func (x *Exec) instrs(st *State, b *ssa.BasicBlock, i int, k Cont) {
 			x.block(st, b.Succs[0], b, k)
 			return
 		case *ssa.Return:
+			x.earlyExit(st, b, "return", ins.Pos())
 			var rs []SVal
 			for _, r := range ins.Results {
 				rs = append(rs, x.val(st, r))
@@ -793,6 +914,7 @@ func (x *Exec) instrs(st *State, b *ssa.BasicBlock, i int, k Cont) {
 			k(st, Exit{Kind: ExitReturn, Results: rs})
 			return
 		case *ssa.Panic:
+			x.earlyExit(st, b, "panic", ins.Pos())
 			v := x.val(st, ins.X)
 			x.unwind(st, Exit{Kind: ExitPanic, Panic: v}, k)
 			return
@@ -817,7 +939,7 @@ func (x *Exec) instrs(st *State, b *ssa.BasicBlock, i int, k Cont) {
 		case *ssa.Send:
 			ch := x.val(st, ins.Chan)
 			v := x.val(st, ins.X)
-			x.event(st, Event{Name: "chan.send:" + provName(ch), Args: []SVal{ch, v}, Pos: ins.Pos()})
+			x.event(st, Event{Name: "chsend:" + provName(ch), Args: []SVal{ch, v}, Pos: ins.Pos()})
 		case *ssa.DebugRef:
 		case *ssa.Call:
 			ii := i
